@@ -80,6 +80,53 @@ impl Shared {
 
 pub static DEADLOCK_PROPERTY: Mutex<String> = Mutex::new(String::new());
 
+/// Controllers that are reading the shared state right now (thread -> since when, what for).
+/// The controller itself takes the filesystem's lock for that; if a parked thread holds the lock
+/// across a yield point (e.g. a nested acquisition) the controller would block for ever, so a
+/// monitor thread watches this table.
+static OBSERVING: Mutex<Option<HashMap<std::thread::ThreadId, (std::time::Instant, String)>>> = Mutex::new(None);
+
+fn observing<T>(what: impl FnOnce() -> String, f: impl FnOnce() -> T) -> T {
+    let id = std::thread::current().id();
+    OBSERVING.lock().unwrap().get_or_insert_with(HashMap::new).insert(id, (std::time::Instant::now(), what()));
+    let r = f();
+    OBSERVING.lock().unwrap().as_mut().unwrap().remove(&id);
+    r
+}
+
+fn report_deadlock(summary: &str, program: &str, schedule: Vec<usize>) -> ! {
+    let prop = DEADLOCK_PROPERTY.lock().unwrap().clone();
+    let _ = std::fs::create_dir_all("/verif/replays");
+    let path = format!("/verif/replays/{}-deadlock.json", prop);
+    let body = serde_json::json!({
+        "engine": "sched",
+        "summary": summary,
+        "program": program,
+        "schedule_so_far": schedule,
+    });
+    let _ = std::fs::write(&path, serde_json::to_string_pretty(&body).unwrap());
+    println!("VIOLATION property={} replay={}", prop, path);
+    println!("  signature: deadlock");
+    std::process::exit(1);
+}
+
+fn start_monitor() {
+    static ONCE: std::sync::Once = std::sync::Once::new();
+    ONCE.call_once(|| {
+        std::thread::spawn(|| loop {
+            std::thread::sleep(Duration::from_secs(1));
+            let stuck = OBSERVING.lock().unwrap().as_ref().and_then(|m| m.values().find(|(t, _)| t.elapsed() >= Duration::from_secs(10)).map(|(_, w)| w.clone()));
+            if let Some(w) = stuck {
+                report_deadlock(
+                    "the scheduler could not read the shared filesystem state within 10 s while every thread was parked at a yield point: a thread holds the filesystem lock across a yield point (e.g. it acquires the lock again while holding it), so any writer that arrives in between deadlocks with it",
+                    &w,
+                    vec![],
+                );
+            }
+        });
+    });
+}
+
 /// A concurrent program over one fresh system.
 pub trait Program: Sync {
     fn describe(&self) -> String;
@@ -116,6 +163,7 @@ pub struct Execution<P: Program> {
 /// while it is enabled, else the lowest enabled thread id runs.
 pub fn run_schedule<P: Program>(prog: &P, prefix: &[usize]) -> Execution<P> {
     install_hook();
+    start_monitor();
     let n = prog.threads();
     let sys = prog.setup();
     let shared = Arc::new(Shared {
@@ -176,26 +224,18 @@ pub fn run_schedule<P: Program>(prog: &P, prefix: &[usize]) -> Execution<P> {
             };
             if deadlock {
                 // a blocked OS thread cannot be joined or killed: report and leave the process
-                let prop = DEADLOCK_PROPERTY.lock().unwrap().clone();
-                let _ = std::fs::create_dir_all("/verif/replays");
-                let path = format!("/verif/replays/{}-deadlock.json", prop);
-                let body = serde_json::json!({
-                    "engine": "sched",
-                    "summary": "a thread neither finished nor reached a yield point within 10 s (deadlock, or a lock held across a yield point)",
-                    "program": prog.describe(),
-                    "schedule_so_far": trace.iter().map(|s| s.chosen).collect::<Vec<_>>(),
-                });
-                let _ = std::fs::write(&path, serde_json::to_string_pretty(&body).unwrap());
-                println!("VIOLATION property={} replay={}", prop, path);
-                println!("  signature: deadlock");
-                std::process::exit(1);
+                report_deadlock(
+                    "a thread neither finished nor reached a yield point within 10 s (deadlock, or a lock held across a yield point)",
+                    &prog.describe(),
+                    trace.iter().map(|s| s.chosen).collect::<Vec<_>>(),
+                );
             }
             if enabled.is_empty() {
                 break;
             }
             // state = shared filesystem state + per-thread program counters, labels and records
             let mut h = std::collections::hash_map::DefaultHasher::new();
-            prog.state_hash(&sys).hash(&mut h);
+            observing(|| format!("{} after schedule {:?}, threads parked at {:?}", prog.describe(), trace.iter().map(|s| s.chosen).collect::<Vec<_>>(), labels), || prog.state_hash(&sys)).hash(&mut h);
             pcs.hash(&mut h);
             labels.hash(&mut h);
             for r in &recs {
